@@ -461,7 +461,7 @@ func judgeC12(out *evid.Out, r *dRun) {
 		}
 		_ = lastC
 		sig := fmt.Sprintf("stall:%s:last=%s:recovered-by-close=%v", r.StallState, lastBefore, recovered)
-		if r.cfg.Poll == 0 && r.StallState == "parked" && lastBefore == "waiter.next.beforewait" && recovered {
+		if r.cfg.Poll == 0 && r.StallState == "parked" && lastBefore == "waiter.next.beforewait" && recovered && strings.Contains(r.StallDump, "sync.Cond.Wait") {
 			sig = "waiter:lost-wakeup:set-broadcast-before-wait"
 		} else {
 			sig += ":" + class
@@ -512,7 +512,7 @@ func diodeCheck(prop string, args []string) int {
 		out.Count("deliveries", int64(len(r.deliveries)))
 	}
 	// 1. seeded noisy runs
-	n := f.N(4000, 300000)
+	n := f.N(6000, 300000)
 	if isRace() {
 		n = f.N(1000, 50000)
 	}
@@ -533,6 +533,36 @@ func diodeCheck(prop string, args []string) int {
 			out.Sample(d, 4)
 		}
 		out.Count("noisy_runs", 1)
+	}
+	// 2a. (thorough) pairs of directed pauses: the k1-th arrival at p1 and the k2-th arrival at p2 each wait
+	// until a goroutine of another role makes a step (sharded)
+	if f.Thorough() {
+		pi := 0
+		for p1 := range dPoints {
+			for p2 := p1 + 1; p2 < len(dPoints); p2++ {
+				for k := 0; k < 4; k++ {
+					for _, poll := range []bool{false, true} {
+						for _, size := range []int{1, 2} {
+							pi++
+							if !f.Mine(pi) {
+								continue
+							}
+							cfg := sweepCfg(p1, 1+k%2, poll, size)
+							cfg.Name = fmt.Sprintf("pair[%s#%d,%s#%d]", dPoints[p1], 1+k%2, dPoints[p2], 1+k/2)
+							cfg.Pauses = append(cfg.Pauses, &dPause{Pt: p2, K: 1 + k/2, Timeout: 3 * time.Millisecond, OtherRole: true, armed: make(chan struct{}), release: make(chan struct{})})
+							cfg.P, cfg.W = 2, 3
+							r := runDiode(cfg, rng.New(f.Seed, uint64(pi)))
+							judge(out, r)
+							account(r, true)
+							out.Count("pair_sweep_runs", 1)
+							if cfg.Pauses[0].entered && cfg.Pauses[1].entered {
+								out.Count("pair_sweep_both_pauses_entered", 1)
+							}
+						}
+					}
+				}
+			}
+		}
 	}
 	// 2. systematic single-pause sweep over every hook point
 	if f.Shard == 0 || f.NShards == 1 {
